@@ -2126,14 +2126,26 @@ class Mode2Mon(mon.Monitor):
         """`dir * (*x - target) >= -tol` with target derived from first_step: the else edge = target not reached yet"""
         c = n["cond"]
         body = self.hc.body["body"]
-        if c.get("k") == "Path" and c.get("res") == "local" and (c.get("ty") or "") == "bool":
-            lets = tast.find(body, lambda z: z.get("k") == "Let" and z["pat"].get("k") == "PBind" and z["pat"].get("id") == c.get("id") and z.get("init") is not None)
-            if len(lets) == 1:
-                c = lets[0]["init"]
+        edge = "else"
+        for _ in range(4):
+            while c.get("k") in ("Paren", "DropTemps"):
+                c = c["e"]
+            if c.get("k") == "Unary" and c.get("op") == "Not":
+                c = c["e"]
+                edge = "then" if edge == "else" else "else"
+                continue
+            if c.get("k") == "Path" and c.get("res") == "local" and (c.get("ty") or "") == "bool":
+                lets = tast.find(body, lambda z: z.get("k") == "Let" and z["pat"].get("k") == "PBind" and z["pat"].get("id") == c.get("id") and z.get("init") is not None)
+                if len(lets) == 1:
+                    c = lets[0]["init"]
+                    continue
+            break
         if not (c.get("k") == "Binary" and c["op"] in ("Ge", "Gt")):
             return False
-        return tast.contains(c["l"], lambda z: z.get("k") == "Path" and z.get("id") == self.hc.pid[2]) and \
-            tast.contains(c["l"], lambda z: z.get("k") == "Path" and z.get("id") in self.derived)
+        if tast.contains(c["l"], lambda z: z.get("k") == "Path" and z.get("id") == self.hc.pid[2]) and \
+                tast.contains(c["l"], lambda z: z.get("k") == "Path" and z.get("id") in self.derived):
+            return edge        # the edge on which the target has NOT been reached yet
+        return False
 
     def step(self, st, ev):
         kind, n = ev[0], ev[1]
@@ -2160,7 +2172,7 @@ class Mode2Mon(mon.Monitor):
             g_ = arm.get("guard")
             if g_ is not None and g_.get("k") == "Binary" and g_["op"] == "Eq" and tast.contains(g_, lambda z: z.get("k") == "Path" and z.get("id") == hc.pid[2]):
                 return ((r, p, True),)
-        if kind == "else" and n.get("k") == "If" and self.is_wait_guard(n):
+        if kind in ("then", "else") and n.get("k") == "If" and self.is_wait_guard(n) == kind:
             self.used_wait.append(n)
             return ((r, p, True),)
         if kind in ("return", "fn_end"):
